@@ -76,6 +76,11 @@ type Exchange struct {
 	// Scheme of an absolute-form target; "" = http. "https" is only generated
 	// together with Case.TLSOrigin (the origin then speaks TLS).
 	Scheme string `json:"scheme,omitempty"`
+	// ReqStyle / ResStyle: chunk extensions, zero-padded chunk sizes and trailer
+	// sections of a chunked request / response body. Only the body they frame is
+	// compared: trailers are not part of the header set the statement speaks of.
+	ReqStyle *ChunkStyle `json:"req_style,omitempty"`
+	ResStyle *ChunkStyle `json:"res_style,omitempty"`
 }
 
 // Case is a script of exchanges on one client connection.
@@ -129,9 +134,70 @@ func (e *Exchange) bodiless() bool {
 
 // ---------------------------------------------------------------- wire forms
 
-func chunked(body []byte, sizes []int, ext bool) []byte {
+// ChunkStyle is how a chunked body is written beyond the chunk sizes: all of it
+// is legal chunked coding (RFC 7230 4.1) that a recipient has to read through.
+type ChunkStyle struct {
+	// Ext is a chunk extension (with its leading ';'): on the first chunk line,
+	// on later ones whose chunk is at least as long, and - ExtLast - on the
+	// last-chunk line.
+	Ext     string `json:"ext,omitempty"`
+	ExtLast bool   `json:"ext_last,omitempty"`
+	// Pad: chunk sizes are written with leading zeros to this many hex digits (<= 16).
+	Pad int `json:"pad,omitempty"`
+	// Trailers is the trailer section after the last chunk (announced with Trailer:).
+	Trailers []Hdr `json:"trailers,omitempty"`
+}
+
+func (st *ChunkStyle) trailerNames() string {
+	var names []string
+	for _, h := range st.Trailers {
+		names = append(names, h.N)
+	}
+	return strings.Join(names, ", ")
+}
+
+func genStyle(t *rapid.T, label string) *ChunkStyle {
+	if rapid.IntRange(0, 9).Draw(t, label+"_style") < 4 {
+		return nil
+	}
+	st := &ChunkStyle{}
+	hex := func(n int) string { return hex.EncodeToString(kit.Bytes(uint64(n), (n+1)/2))[:n] }
+	switch rapid.IntRange(0, 7).Draw(t, label+"_ext_kind") {
+	case 0, 1:
+	case 2:
+		st.Ext = rapid.SampledFrom([]string{";a=1", ";x", ";n=0"}).Draw(t, label+"_ext_short")
+	case 3, 4:
+		st.Ext = ";checksum=" + hex(rapid.SampledFrom([]int{2, 4, 8, 16, 32, 64, 200}).Draw(t, label+"_ext_len"))
+	case 5:
+		st.Ext = ";note=\"" + rapid.StringMatching(`[a-z0-9 ;=,]{0,40}`).Draw(t, label+"_ext_quoted") + "\""
+	case 6:
+		st.Ext = ";lastmodified;sig=" + hex(rapid.SampledFrom([]int{1, 6, 24}).Draw(t, label+"_ext_len2")) + ";q=\"x y\""
+	default:
+		st.Ext = ";" + rapid.StringMatching(`[a-z][a-z0-9-]{0,30}`).Draw(t, label+"_ext_name")
+	}
+	if st.Ext != "" {
+		st.ExtLast = rapid.Bool().Draw(t, label+"_ext_last")
+	}
+	if rapid.IntRange(0, 3).Draw(t, label+"_padded") == 0 {
+		st.Pad = rapid.SampledFrom([]int{2, 4, 8, 12, 15, 16}).Draw(t, label+"_pad")
+	}
+	if rapid.IntRange(0, 2).Draw(t, label+"_trailers") == 0 {
+		n := rapid.IntRange(1, 3).Draw(t, label+"_ntrailers")
+		for i := 0; i < n; i++ {
+			size := rapid.SampledFrom([]int{1, 4, 20, 100, 900}).Draw(t, label+"_trailer_size")
+			st.Trailers = append(st.Trailers, Hdr{N: []string{"X-Trail-A", "X-Trail-B", "X-Trail-Sum"}[i], V: string(kit.Text(uint64(size+i), size))})
+		}
+	}
+	return st
+}
+
+func chunked(body []byte, sizes []int, ext bool, st *ChunkStyle) []byte {
 	var b bytes.Buffer
+	if st == nil {
+		st = &ChunkStyle{}
+	}
 	i, k := 0, 0
+	first := true
 	for i < len(body) {
 		n := 1024
 		if len(sizes) > 0 {
@@ -144,16 +210,30 @@ func chunked(body []byte, sizes []int, ext bool) []byte {
 		if i+n > len(body) {
 			n = len(body) - i
 		}
-		if ext && k%2 == 1 {
-			fmt.Fprintf(&b, "%x;verif=1\r\n", n)
-		} else {
-			fmt.Fprintf(&b, "%x\r\n", n)
+		switch {
+		case st.Ext != "" && (first || n >= len(st.Ext)):
+			// (net/http's reader gives up on a body whose framing outweighs its
+			// data by more than 16 KiB: long extensions go with chunks of their size)
+			fmt.Fprintf(&b, "%0*x%s\r\n", st.Pad, n, st.Ext)
+		case ext && k%2 == 1:
+			fmt.Fprintf(&b, "%0*x;verif=1\r\n", st.Pad, n)
+		default:
+			fmt.Fprintf(&b, "%0*x\r\n", st.Pad, n)
 		}
+		first = false
 		b.Write(body[i : i+n])
 		b.WriteString("\r\n")
 		i += n
 	}
-	b.WriteString("0\r\n\r\n")
+	if st.ExtLast {
+		fmt.Fprintf(&b, "%0*x%s\r\n", st.Pad, 0, st.Ext)
+	} else {
+		fmt.Fprintf(&b, "%0*x\r\n", st.Pad, 0)
+	}
+	for _, h := range st.Trailers {
+		fmt.Fprintf(&b, "%s: %s\r\n", h.N, h.V)
+	}
+	b.WriteString("\r\n")
 	return b.Bytes()
 }
 
@@ -198,8 +278,12 @@ func (e *Exchange) wireRequest(id string) []byte {
 		fmt.Fprintf(&b, "Content-Length: %d\r\n\r\n", len(body))
 		b.Write(body)
 	case "chunked":
-		b.WriteString("Transfer-Encoding: chunked\r\n\r\n")
-		b.Write(chunked(body, e.ReqChunk, e.ChunkExt))
+		b.WriteString("Transfer-Encoding: chunked\r\n")
+		if e.ReqStyle != nil && len(e.ReqStyle.Trailers) > 0 {
+			fmt.Fprintf(&b, "Trailer: %s\r\n", e.ReqStyle.trailerNames())
+		}
+		b.WriteString("\r\n")
+		b.Write(chunked(body, e.ReqChunk, e.ChunkExt, e.ReqStyle))
 	default:
 		b.WriteString("\r\n")
 	}
@@ -258,8 +342,12 @@ func (e *Exchange) wireResponse() []byte {
 		fmt.Fprintf(&b, "Content-Length: %d\r\n\r\n", len(body))
 		b.Write(body)
 	case e.ResFrame == "chunked":
-		b.WriteString("Transfer-Encoding: chunked\r\n\r\n")
-		b.Write(chunked(body, e.ResChunk, false))
+		b.WriteString("Transfer-Encoding: chunked\r\n")
+		if e.ResStyle != nil && len(e.ResStyle.Trailers) > 0 {
+			fmt.Fprintf(&b, "Trailer: %s\r\n", e.ResStyle.trailerNames())
+		}
+		b.WriteString("\r\n")
+		b.Write(chunked(body, e.ResChunk, false, e.ResStyle))
 	case e.ResFrame == "close":
 		b.WriteString("\r\n")
 		b.Write(body)
@@ -359,6 +447,7 @@ func genExchange(t *rapid.T, maxBody int, last bool) Exchange {
 		if e.ReqFrame == "chunked" {
 			e.ReqChunk = genChunks(t, "req_chunks")
 			e.ChunkExt = rapid.IntRange(0, 3).Draw(t, "chunk_ext") == 0
+			e.ReqStyle = genStyle(t, "req")
 		}
 	} else {
 		e.ReqFrame = "none"
@@ -387,6 +476,7 @@ func genExchange(t *rapid.T, maxBody int, last bool) Exchange {
 		e.ResSeed = rapid.Uint64Range(1, 1<<20).Draw(t, "res_seed")
 		if e.ResFrame == "chunked" {
 			e.ResChunk = genChunks(t, "res_chunks")
+			e.ResStyle = genStyle(t, "res")
 		}
 	} else if e.Method == "HEAD" && e.ResFrame == "cl" {
 		e.ResSize = rapid.IntRange(0, 100000).Draw(t, "head_cl")
@@ -933,6 +1023,18 @@ func trunc(b []byte, n int) []byte {
 	return b
 }
 
+func styleFlags(flags map[string]bool, side string, st *ChunkStyle) {
+	if st == nil {
+		return
+	}
+	if st.Pad+len(st.Ext)+2 > 16 || len(st.Ext) > 12 {
+		flags["chunked-"+side+"-chunk-line>16"] = true
+	}
+	if len(st.Trailers) > 0 {
+		flags["chunked-"+side+"-trailers"] = true
+	}
+}
+
 func nontrivial(c Case) bool {
 	if len(c.Exchanges) >= 2 {
 		return true
@@ -971,6 +1073,10 @@ func classes(c Case) []string {
 	for _, e := range c.Exchanges {
 		if e.ReqFrame == "chunked" {
 			flags["chunked-request"] = true
+			styleFlags(flags, "request", e.ReqStyle)
+		}
+		if e.ResFrame == "chunked" && !e.bodiless() {
+			styleFlags(flags, "response", e.ResStyle)
 		}
 		if e.ResFrame == "chunked" {
 			flags["chunked-response"] = true
